@@ -46,6 +46,13 @@
 #include <xercesc/framework/Wrapper4InputSource.hpp>
 #include <xercesc/parsers/DOMLSParserImpl.hpp>
 #include <xercesc/util/PanicHandler.hpp>
+#include <xercesc/util/Janitor.hpp>
+#include <xercesc/util/RefVectorOf.hpp>
+#include <xercesc/util/XMLBigDecimal.hpp>
+#include <xercesc/util/XMLStringTokenizer.hpp>
+#include <xercesc/util/QName.hpp>
+#include <xercesc/util/ArrayIndexOutOfBoundsException.hpp>
+#include <xercesc/util/OutOfMemoryException.hpp>
 #include <map>
 #include <unordered_map>
 #include <stdexcept>
@@ -1317,6 +1324,169 @@ static void doRef(const std::string& id, const KV& kv) {
     outLine("end " + id);
 }
 
+// ------------------------------------------------------------------------------------------------
+// scope guards and adopting containers (models: coq/theories/C18/Model18J.v, Model18V.v)
+// ------------------------------------------------------------------------------------------------
+// a manager that also writes the order of its events with allocation ordinals instead of addresses
+struct SeqMM : public LedgerMM {
+    std::map<void*, int> ord; int n; std::string pat; std::vector<size_t> sizes; bool rec;
+    explicit SeqMM(int i) : LedgerMM(i), n(0), rec(false) {}
+    void* allocate(XMLSize_t s) {
+        void* p = LedgerMM::allocate(s);
+        ord[p] = n; pat += " A" + std::to_string(n); n++;
+        if (rec) sizes.push_back((size_t)s);
+        return p;
+    }
+    void deallocate(void* p) {
+        if (p) { std::map<void*, int>::iterator it = ord.find(p); pat += " F" + (it == ord.end() ? std::string("?") : std::to_string(it->second)); }
+        LedgerMM::deallocate(p);
+    }
+    void restart() { ord.clear(); n = 0; pat.clear(); sizes.clear(); rec = false; }
+};
+static SeqMM* seqMgr(int id) {
+    std::map<int, LedgerMM*>::iterator it = gMgrs.find(id);
+    if (it != gMgrs.end()) return static_cast<SeqMM*>(it->second);
+    SeqMM* m = new SeqMM(id);
+    gMgrs[id] = m;
+    return m;
+}
+struct JanThrow { int k; };
+struct JObj : public XMemory { long v; JObj() : v(7) {} };
+static std::vector<std::string> splitOps(const std::string& ops) {
+    std::vector<std::string> r; size_t pos = 0;
+    while (pos < ops.size()) { size_t c = ops.find(',', pos); if (c == std::string::npos) c = ops.size(); if (c > pos) r.push_back(ops.substr(pos, c - pos)); pos = c + 1; }
+    return r;
+}
+// the function under test: a temporary under Janitor<T> (kind J) or ArrayJanitor<XMLCh> (kind A); ops c = a call that throws
+// when the countdown reaches 0, r = reset(new block), l = release() to a later owner
+static void janBody(char kind, SeqMM* mm, const std::vector<std::string>& ops, long k, std::vector<JObj*>& ownedJ, std::vector<XMLCh*>& ownedA) {
+    if (kind == 'J') {
+        Janitor<JObj> j(new (mm) JObj());
+        for (size_t i = 0; i < ops.size(); i++) {
+            if (ops[i] == "c") { if (k == 0) throw JanThrow{(int)i}; if (k > 0) k--; }
+            else if (ops[i] == "r") j.reset(new (mm) JObj());
+            else if (ops[i] == "l") { JObj* p = j.release(); if (p) ownedJ.push_back(p); }
+        }
+    } else {
+        ArrayJanitor<XMLCh> j((XMLCh*)mm->allocate(24), mm);
+        for (size_t i = 0; i < ops.size(); i++) {
+            if (ops[i] == "c") { if (k == 0) throw JanThrow{(int)i}; if (k > 0) k--; }
+            else if (ops[i] == "r") j.reset((XMLCh*)mm->allocate(24), mm);
+            else if (ops[i] == "l") { XMLCh* p = j.release(); if (p) ownedA.push_back(p); }
+        }
+    }
+}
+static void doJan(const std::string& id, const KV& kv) {
+    SeqMM* mm = seqMgr(40);
+    mm->restart();
+    outLine("begin " + id);
+    std::vector<std::string> ops = splitOps(get(kv, "ops", ""));
+    long k = geti(kv, "k", -1);
+    char kind = get(kv, "kind", "J")[0];
+    std::vector<JObj*> ownedJ; std::vector<XMLCh*> ownedA;
+    std::string how = "normal";
+    try { janBody(kind, mm, ops, k, ownedJ, ownedA); } catch (const JanThrow& t) { how = "threw@" + std::to_string(t.k); }
+    // the later owners release what was handed to them (most recently adopted first, as the model does)
+    for (size_t i = ownedJ.size(); i-- > 0;) delete ownedJ[i];
+    for (size_t i = ownedA.size(); i-- > 0;) mm->deallocate(ownedA[i]);
+    outLine("x " + id + " " + how + mm->pat);
+    std::vector<int> ids; ids.push_back(40);
+    checkpoint(id + ".jan", ids);
+    outLine("end " + id);
+}
+
+// RefVectorOf<Elem>(max, adopt, manager): rvec adopt=1 max=2 ops=a,s1,i0,o2,r1,l,x   (elements are numbered 1,2,... as they are created)
+static std::string gDelLog; static bool gLogDel = false;
+struct VElem : public XMemory { int id; explicit VElem(int i) : id(i) {} ~VElem() { if (gLogDel) gDelLog += (gDelLog.empty() ? "" : ",") + std::to_string(id); } };
+static void doRvec(const std::string& id, const KV& kv) {
+    SeqMM* mm = seqMgr(41);       // the container's manager
+    LedgerMM* em = mgr(42);       // the client's manager for the elements
+    mm->restart();
+    outLine("begin " + id);
+    bool adopt = geti(kv, "adopt", 1) != 0;
+    std::vector<std::string> ops = splitOps(get(kv, "ops", ""));
+    std::map<int, VElem*> client; // elements that are the client's by the contract of the API: all of them when the vector does not
+                                  // adopt; else those handed back by orphanElementAt and those refused with an exception
+    gDelLog.clear(); gLogDel = true;
+    int next = 1;
+    std::string exc;
+    {
+        mm->rec = true;
+        RefVectorOf<VElem>* v = new (mm) RefVectorOf<VElem>((XMLSize_t)geti(kv, "max", 2), adopt, mm);
+        for (size_t i = 0; i < ops.size(); i++) {
+            char c = ops[i][0];
+            XMLSize_t ix = ops[i].size() > 1 ? (XMLSize_t)strtoul(ops[i].c_str() + 1, 0, 10) : 0;
+            size_t before = mm->sizes.size();
+            VElem* e = 0;
+            try {
+                if (c == 'a' || c == 's' || c == 'i') { e = new (em) VElem(next++); if (!adopt) client[e->id] = e; }
+                if (c == 'a') v->addElement(e);
+                else if (c == 's') v->setElementAt(e, ix);
+                else if (c == 'i') v->insertElementAt(e, ix);
+                else if (c == 'o') { VElem* r = v->orphanElementAt(ix); if (r) client[r->id] = r; }
+                else if (c == 'r') { v->removeElementAt(ix); }
+                else if (c == 'l') { v->removeLastElement(); }
+                else if (c == 'x') { v->removeAllElements(); }
+            } catch (const ArrayIndexOutOfBoundsException&) {
+                // the exception object and its message were allocated through the container's manager: not element arrays
+                // (every throwing call throws before it touches the array); a refused element stays the client's
+                exc += "."; mm->sizes.resize(before);
+                if (e) client[e->id] = e;
+            }
+        }
+        delete v;
+        mm->rec = false;
+    }
+    gLogDel = false;
+    std::string del = gDelLog;
+    // the client deletes exactly what is its own; what an adopting container failed to delete stays outstanding (monitor), what it
+    // deleted although it had handed it back is deleted twice (monitor)
+    std::string out;
+    for (std::map<int, VElem*>::iterator it = client.begin(); it != client.end(); ++it) { out += (out.empty() ? "" : ",") + std::to_string(it->first); delete it->second; }
+    std::string blk;
+    // sizes[0] is the vector object itself (new (mm) RefVectorOf); the others are element arrays
+    for (size_t i = 1; i < mm->sizes.size(); i++) blk += (blk.empty() ? "" : ",") + std::to_string(mm->sizes[i] / sizeof(void*));
+    outLine("x " + id + " del=" + (del.empty() ? "-" : del) + " out=" + (out.empty() ? "-" : out) + " blk=" + (blk.empty() ? "-" : blk));
+    std::vector<int> ids; ids.push_back(41); ids.push_back(42);
+    checkpoint(id + ".rvec", ids);
+    outLine("end " + id);
+}
+
+// guarded constructors (CleanupType cleanup(this, &T::cleanUp)) with arguments that make the body throw at different places
+static void doCtor(const std::string& id, const KV& kv) {
+    LedgerMM* mm = mgr(43);
+    outLine("begin " + id);
+    std::string cls = get(kv, "cls", "url");
+    std::string arg = unhex(get(kv, "arg", ""));
+    std::string arg2 = unhex(get(kv, "arg2", ""));
+    std::string res = "constructed";
+    {
+        XMLCh* w = XMLString::transcode(arg.c_str(), mm);
+        XMLCh* w2 = XMLString::transcode(arg2.c_str(), mm);
+        ArrayJanitor<XMLCh> j1(w, mm), j2(w2, mm);
+        try {
+            if (cls == "url") { XMLURL* u = new (mm) XMLURL(w, mm); delete u; }
+            else if (cls == "urlrel") { XMLURL* u = new (mm) XMLURL(w2, w, mm); delete u; }
+            else if (cls == "urlbase") { XMLURL b(w2, mm); XMLURL* u = new (mm) XMLURL(b, w); delete u; }
+            else if (cls == "urlset") { XMLURL* u = new (mm) XMLURL(mm); bool ok = u->setURL(w2, w, *u); res = ok ? "constructed" : "rejected"; delete u; }
+            else if (cls == "uri") { XMLUri* u = new (mm) XMLUri(w, mm); delete u; }
+            else if (cls == "urirel") { XMLUri b(w2, mm); XMLUri* u = new (mm) XMLUri(&b, w, mm); delete u; }
+            else if (cls == "regex") { RegularExpression* r = new (mm) RegularExpression(w, w2, mm); delete r; }
+            else if (cls == "bigdec") { XMLBigDecimal* d = new (mm) XMLBigDecimal(w, mm); delete d; }
+            else if (cls == "tok") { XMLStringTokenizer* t = new (mm) XMLStringTokenizer(w, w2, mm); while (t->hasMoreTokens()) t->nextToken(); delete t; }
+            else if (cls == "qname") { QName* q = new (mm) QName(w, 3, mm); q->setName(w2, 4); delete q; }
+            else res = "bad-class";
+        } catch (const MalformedURLException&) { res = "exc:MalformedURL";
+        } catch (const XMLException& e) { res = "exc:" + narrow(e.getType());
+        } catch (const OutOfMemoryException&) { res = "exc:OOM";
+        } catch (...) { res = "exc:other"; }
+    }
+    outLine("r " + id + " ctor " + cls + " " + res);
+    std::vector<int> ids; ids.push_back(43);
+    checkpoint(id + ".ctor", ids);
+    outLine("end " + id);
+}
+
 // a crash inside the library (typically the second destructor run of a doubly deleted object): print where, flush, leave
 static std::string symStack(int skip) {
     void* fr[32];
@@ -1412,6 +1582,9 @@ int main() {
             else if (op == "progreuse") doProgReuse(id, kv);
             else if (op == "misc") doMisc(id, kv);
             else if (op == "domhist") doDomHist(id, kv);
+            else if (op == "jan") doJan(id, kv);
+            else if (op == "rvec") doRvec(id, kv);
+            else if (op == "ctor") doCtor(id, kv);
             else outLine("r " + id + " bad-request");
             flushOut();
         } catch (const XMLException& e) { outLine("r " + id + " harness-exc:XMLException:" + narrow(e.getMessage()));
